@@ -55,6 +55,8 @@ struct Spec {
     steps: Vec<Step>,
     fate: Fate,
     custom_stack: bool,
+    /// the JoinHandle is dropped right after the spawn (nobody collects the outcome)
+    detached: bool,
 }
 
 #[derive(Debug)]
@@ -62,6 +64,8 @@ struct Params {
     rt: RtCfg,
     specs: Vec<Spec>,
     successors: usize,
+    /// successors on the reused stacks end by a cancel unwind (their join must say Cancel)
+    cancel_successors: bool,
 }
 
 fn gen(seed: u64) -> Params {
@@ -88,10 +92,11 @@ fn gen(seed: u64) -> Params {
                 3 => Fate::Cancel(r.below(50) as u32, *r.pick(&[Holding::Nothing, Holding::Mutex, Holding::RwWrite])),
                 _ => Fate::Normal,
             };
-            Spec { id: i as u32, steps, fate, custom_stack: r.chance(1, 8) }
+            let detached = !matches!(fate, Fate::Cancel(..)) && r.chance(1, 4);
+            Spec { id: i as u32, steps, fate, custom_stack: r.chance(1, 8), detached }
         })
         .collect();
-    Params { rt, specs, successors: r.range(1, 4) as usize }
+    Params { rt, specs, successors: r.range(1, 4) as usize, cancel_successors: r.chance(1, 2) }
 }
 
 struct Shared {
@@ -269,27 +274,75 @@ pub fn run(seed: u64, mut ov: impl FnMut(&mut engine::Cfg)) -> ! {
         sent: AtomicU32::new(0),
     });
     let (tx, rx) = mpsc::channel::<u32>();
-    let mut handles: Vec<(Spec, JoinHandle<u32>)> = Vec::new();
+    let mut handles: Vec<(Spec, Option<JoinHandle<u32>>, Option<Arc<AtomicBool>>)> = Vec::new();
     let mut cancels = Vec::new();
     for s in p.specs.iter() {
+        if s.detached {
+            // nobody will join it: its end is observed through a flag set when its closure is left
+            let done = Arc::new(AtomicBool::new(false));
+            let (spec2, sh2, tx2, d2) = (s.clone(), sh.clone(), tx.clone(), done.clone());
+            let f = move || {
+                struct G(Arc<AtomicBool>);
+                impl Drop for G {
+                    fn drop(&mut self) {
+                        rt::set_flag(&self.0);
+                    }
+                }
+                let _g = G(d2);
+                body(&spec2, &sh2, &tx2)
+            };
+            drop(unsafe { coroutine::spawn(f) });
+            handles.push((s.clone(), None, Some(done)));
+            continue;
+        }
         let h = spawn_spec(s, &sh, &tx);
         if let Fate::Cancel(k, _) = s.fate {
             cancels.push((k, h.coroutine().clone(), Arc::new(AtomicBool::new(false))));
         }
-        handles.push((s.clone(), h));
+        handles.push((s.clone(), Some(h), None));
     }
     let ctl = rt::spawn_canceller(cancels);
     // join in order; after every coroutine that ended by a panic, spawn successors that reuse
     // the (small) stack pool and the same locks, and join them too
     let mut next_id = 100u32;
-    for (spec, h) in handles {
-        let o = OPS.begin(format!("join of coroutine {} {:?}", spec.id, spec.fate));
-        let r = h.join();
-        o.done();
-        check_join(&spec, r);
+    for (spec, h, done) in handles {
+        if let Some(h) = h {
+            let o = OPS.begin(format!("join of coroutine {} {:?}", spec.id, spec.fate));
+            let r = h.join();
+            o.done();
+            check_join(&spec, r);
+        } else {
+            let o = OPS.begin(format!("end of detached coroutine {} {:?}", spec.id, spec.fate));
+            rt::wait_flag(&done.unwrap(), usize::MAX);
+            o.done();
+            // let the worker finish the unwinding and recycle the stack
+            engine::sleep(50_000);
+        }
         if matches!(spec.fate, Fate::PanicAt(..)) {
-            for _ in 0..p.successors {
-                let s = Spec { id: next_id, steps: vec![Step::LockInc, Step::Yield, Step::WriteInc], fate: Fate::Normal, custom_stack: false };
+            for k in 0..p.successors {
+                if p.cancel_successors && k % 2 == 0 {
+                    // a coroutine on the recycled stack that ends by a cancel unwind: the join
+                    // must report Cancel, not what its predecessor left behind
+                    let id = next_id;
+                    next_id += 1;
+                    let s = Spec { id, steps: vec![], fate: Fate::Cancel(0, Holding::Nothing), custom_stack: false, detached: false };
+                    let h = unsafe {
+                        coroutine::spawn(move || loop {
+                            coroutine::park();
+                        })
+                    };
+                    rt::dally(k as u32 + 1);
+                    unsafe { h.coroutine().cancel() };
+                    let o = OPS.begin(format!("join of cancelled successor {}", id));
+                    let r: std::thread::Result<u32> = h.join();
+                    o.done();
+                    if r.is_ok() {
+                        violation(&format!("cancelled successor {} ended normally", id));
+                    }
+                    check_join(&s, r);
+                    continue;
+                }
+                let s = Spec { id: next_id, steps: vec![Step::LockInc, Step::Yield, Step::WriteInc], fate: Fate::Normal, custom_stack: false, detached: false };
                 next_id += 1;
                 let h = spawn_spec(&s, &sh, &tx);
                 let o = OPS.begin(format!("join of successor {}", s.id));
@@ -303,7 +356,7 @@ pub fn run(seed: u64, mut ov: impl FnMut(&mut engine::Cfg)) -> ! {
     // every worker still takes work
     let mut last = Vec::new();
     for w in 0..p.rt.workers * 2 {
-        let s = Spec { id: 200 + w as u32, steps: vec![Step::Yield, Step::LockInc], fate: Fate::Normal, custom_stack: false };
+        let s = Spec { id: 200 + w as u32, steps: vec![Step::Yield, Step::LockInc], fate: Fate::Normal, custom_stack: false, detached: false };
         let h = unsafe { coroutine::Builder::new().id(w).spawn({
             let (s2, sh2, tx2) = (s.clone(), sh.clone(), tx.clone());
             move || body(&s2, &sh2, &tx2)
